@@ -284,9 +284,9 @@ func init() {
 			"Non-trivial: >=1 disposable instance was created; distinct = spec hash + fault position.",
 		Shards:     func(tier string) int { return 16 },
 		Run:        runC10,
-		NeedEvents: []string{"close_events", "disposables_created", "fault_positions", "overlap_with_close_executions"},
+		NeedEvents: []string{"close_events", "disposables_created", "fault_positions", "overlap_with_close_executions", "value_equal_instance_cases"},
 		Assumptions: []string{"lenient reading for failed Build / failed scope creation: closed by the end of the history (DESIGN.md §3 C10)",
-			"instance values are not created by the container and are excluded", "the overlap of Close with an in-flight construction is driven with the sandwich schedule of the C13 engine (op parked in a constructor, closer parked inside a disposable Close, op released first)"},
+			"instance values are not created by the container and are excluded", "a fixture family with value-equal instances (no distinguishing field; tracked by pointer) covers multi-output, grouped and separately registered constructors in every lifetime: identity, not value, decides what is tracked for disposal", "the overlap of Close with an in-flight construction is driven with the sandwich schedule of the C13 engine (op parked in a constructor, closer parked inside a disposable Close, op released first)"},
 	})
 	eng.Register(&eng.Property{
 		ID: "C11", Level: "exploration",
@@ -309,6 +309,7 @@ var C10Overlap func(c *eng.Ctx, next func() (int, bool))
 func runC10(c *eng.Ctx) {
 	cr := &caseRunner{c: c, prop: "C10"}
 	defer func() {
+		RunEqualValues(c, "C10", cr.next)
 		if C10Overlap != nil {
 			C10Overlap(c, cr.next)
 		}
